@@ -42,7 +42,7 @@ def graphStr (g : PGraph) : String :=
   " | ".intercalate (g.map fun x => " ".intercalate (x.name :: (x.fedges.map (edgeStr "f") ++ x.redges.map (edgeStr "r"))))
 
 def stepStr (s : StepInfo) : String :=
-  s!"{s.node}:{s.src}>{s.dst}:{ratToStr s.extent}:{ratToStr s.separation}:{s.stretches}:{ratToStr s.walkExtent}:{s.walkStretches}"
+  s!"{s.node}:{s.src}>{s.dst}:{ratToStr s.extent}:{ratToStr s.separation}:{s.stretches}:{ratToStr s.walkExtent}:{s.walkStretches}:{s.kind}:{s.walkLen}"
 
 def solvedStr (s : Solved) : String :=
   " ".intercalate (s.pos.map fun e => s!"{e.1}={ratToStr e.2}") ++
